@@ -821,6 +821,9 @@ class CompositeEnvelope:
             CompositeEnvelope._instances[self.uid] = []
         CompositeEnvelope._instances[self.uid].append(self)
         self.update_composite_envelope_pointers()
+        if len(composite_envelopes) > 1:
+            # Product states of the merged containers changed their position
+            ce_container.update_all_indices()
 
     def __repr__(self) -> str:
         return (
